@@ -385,7 +385,7 @@ class dictable(Dict):
             if len(item) == 0:
                 return type(self)(data = [], columns = self.keys())
             elif is_strs(item):
-                return type(self)(super(dictable, self).__getitem__(item))
+                return type(self)({key : super(dictable, self).__getitem__(key) for key in item})
             elif is_bools(item):
                 res = type(self)([row for row, tf in zipper(list(self), item) if tf])
                 return res if len(res) else type(self)([], self.keys())
